@@ -7,9 +7,9 @@ superset theorem (everything affected is reported when the level is unlimited). 
 namespace PlzVerif.Changes
 open PlzVerif.Query
 
-/-- `t` consumes `f`: `f` is one of its sources / data files, or lies inside a directory that is one -/
+/-- `t` consumes `f`: `f` is one of its sources, data files or local file tools, or lies inside a directory that is one -/
 def Consumes (C : CGraph) (t : Nat) (f : Path) : Prop :=
-  ∃ s ∈ C.inputs t, s ≠ [] ∧ ∃ rest, f = C.pkgOf t ++ s ++ rest
+  ∃ s ∈ C.inputs t ++ C.tools t, s ≠ [] ∧ ∃ rest, f = C.pkgOf t ++ s ++ rest
 
 /-- `t`'s package is the closest package above `f` (plz lets only that package use the file) -/
 def Owner (C : CGraph) (t : Nat) (f : Path) : Prop :=
@@ -95,8 +95,6 @@ theorem consumer_changed (C : CGraph) (files : List Path) (t : Nat) (f : Path) (
   simp only [List.mem_filter, beq_self_eq_true, Bool.true_and]
   refine ⟨ht, ?_⟩
   unfold hasAbsoluteSource
-  simp only [List.any_eq_true]
-  refine ⟨s, hs, ?_⟩
   -- the path relative to the package is s ++ rest
   have hrel : (if (C.pkgOf t != []) = true ∧ (C.pkgOf t).isPrefixOf f = true then f.drop (C.pkgOf t).length else f) = s ++ rest := by
     by_cases hp : C.pkgOf t = []
@@ -105,15 +103,20 @@ theorem consumer_changed (C : CGraph) (files : List Path) (t : Nat) (f : Path) (
       have h2 : (C.pkgOf t).isPrefixOf f = true := by
         rw [List.isPrefixOf_iff_prefix, hfe, List.append_assoc]; exact List.prefix_append _ _
       rw [if_pos ⟨h1, h2⟩, hfe, List.append_assoc, List.drop_left]
+  have hm : matchesInput s (s ++ rest) = true := by
+    unfold matchesInput
+    cases rest with
+    | nil => simp
+    | cons x xs =>
+      simp only [Bool.or_eq_true, beq_iff_eq, Bool.and_eq_true, decide_eq_true_eq, List.length_append, List.length_cons]
+      right
+      exact ⟨by omega, by rw [List.isPrefixOf_iff_prefix]; exact List.prefix_append _ _⟩
   simp only [Bool.and_eq_true] at hrel ⊢
   rw [hrel]
-  unfold matchesInput
-  cases rest with
-  | nil => simp
-  | cons x xs =>
-    simp only [Bool.or_eq_true, beq_iff_eq, Bool.and_eq_true, decide_eq_true_eq, List.length_append, List.length_cons]
-    right
-    exact ⟨by omega, by rw [List.isPrefixOf_iff_prefix]; exact List.prefix_append _ _⟩
+  simp only [Bool.or_eq_true, List.any_eq_true]
+  rcases List.mem_append.mp hs with hs | hs
+  · exact Or.inl ⟨s, hs, hm⟩
+  · exact Or.inr ⟨s, hs, hm⟩
 
 /-- what `query changes` must report: consumers of a changed file, targets whose definition changed, and
 everything that transitively depends on those -/
